@@ -47,7 +47,29 @@ MANIFEST = dict(
           "(bit-exact mirrors for scalar code, decisions within rounding of a threshold are counted as ambiguous), and the proved "
           "properties are evaluated on the implementation's numbers by independent exact code. That the LDLT answer solves the "
           "system (it does not when Q - hessvar is singular: finding in notes/C04.md), that Eigen's fullPivLu returns a "
-          "factorisation, and floating-point rounding are searched, not proved."),
+          "factorisation, and floating-point rounding are searched, not proved. The rest of the solver is inside the model too "
+          "(C04_Rest_Defs.v): solve_without_inequality (the KKT matrix [[Q,A'],[A,0]] and right-hand side (-c,b) as program.solve(zero,c,-b) "
+          "assembles them, the LDLT answer as an oracle, update, Eigen's isApprox translated from Fuzzy.h, the translated status expression): "
+          "the system is stationarity + feasibility, an exact answer is a global minimiser over {Ax=b} for psd Q, converged <-> finite and "
+          "isApprox, the reported objective / residuals are those of the returned point, converged implies |A'x-b'|_2 <= eps2 |(c',b')|_2 on "
+          "the normalised rows and hence never on a system without such a point; that it implies the property's tolerance 1e-6(1+|b|_inf) "
+          "is refuted with a witness (|A|_F >> 1+|b|_inf) and reproduced on the library (defect candidate equality-tolerance-vs-row-scale). "
+          "make_strictly_feasible / make_x0 (it is not an auxiliary LP: least-squares candidates (G'G)^-1 G'(h - y 1) for 100 distances y): a "
+          "returned point is strictly inside every inequality for any inner answers, a candidate solving its normal equations is the "
+          "least-squares fit, a point with all slacks equal to a trial distance is found, nothing found => start 0 => `unfeasible` without an "
+          "iteration unless h > 0; that a strictly feasible program gets a start is refuted with a witness (x<=0, -2x<=2, x<=10) reproduced on "
+          "the library, and measured (15-22 % of the generated programs with a known strictly feasible point are reported unfeasible "
+          "before the first iteration). LDLT failures: lu_ok_b = the recorded (dx,dv) solves the reduced system within a tolerance; for ANY "
+          "direction the full Newton rows hold up to the defect and the residuals after a step are (1-s) times the old ones plus s times the "
+          "defect (no contraction without lu_ok: refuted with a witness), while every run of the loop that ends converged -- whatever the "
+          "answers -- ends at a point passing the feasibility test transferred to the caller's rows with eta, |rdual|, |rprim| < eps: a failed "
+          "factorisation cannot produce a false converged. Per run the REST stage solves ~680 equality-only programs (KKT-consistent, "
+          "rank-deficient restatements, inconsistent, unbounded, large right-hand sides, rows much larger than their right-hand side, nearly "
+          "dependent rows, ill-conditioned Q), re-takes the status with the extracted model on the returned (x,v) and evaluates the proved "
+          "bound by independent exact code; calls make_strictly_feasible on ~780 programs next to its trial loop recomputed with the same "
+          "Eigen calls (distances bit-exact, candidates checked against their normal equations, the model's loop on them against the library's "
+          "result) and observes the default start through ev_program_start; the ITER stage counts the passes violating lu_ok (7-11 %) and "
+          "checks every converged final state for feasibility on the program as solved."),
     note=("Coq kernel; translator (5 decision kernels + 9 step-length kernels + 14 iteration kernels and 5 text pins of solver.cpp, 12 integer kernels of util.cpp); extraction with ExtrOcamlZBigInt (Zarith) + Z.gcd realised by Zarith's gcd; the guarded values hook ev_program_start/ev_program_iter of /repo (NANO_VERIF); harness "
           "against the library built from the working tree + OCaml driver + exact rational oracle in tools/checks/c04.py; "
           "square roots are not modelled (norm divisors are inputs checked against the exact squares); the LU factorisation "
@@ -55,7 +77,13 @@ MANIFEST = dict(
           "when they are exact in doubles, within 1e-12 otherwise); make_smax is in an anonymous namespace: its expressions are "
           "translated, its effect is observed as u > 0 on every returned state and on every iterate of the ITER stage, and its value "
           "s0*make_smax bit-exactly through the hook. The iteration model is exact: the LDLT answer is an oracle validated per pass; "
-          "vector expressions are compared within 1e-11 of the summed magnitudes; the two `all finite` tests are oracle bits."),
+          "vector expressions are compared within 1e-11 of the summed magnitudes; the two `all finite` tests are oracle bits. REST stage: "
+          "13 more kernels (status expression of solve_without_inequality, Eigen's isApprox from /usr/include/eigen3/Eigen/src/Core/Fuzzy.h, the "
+          "acceptance test / loop start / condition / increment / trial count of make_strictly_feasible, 6 text pins); no hook exists in "
+          "solve_without_inequality: the program as solved is reconstructed by the harness with the library's reduce and the same norms (as in "
+          "the SOLVE stage) and the decision is re-taken on the returned (x,v), ambiguous within rounding of the isApprox threshold; the trial "
+          "loop of make_strictly_feasible is recomputed in the harness with the same Eigen calls (its candidates are oracle answers validated "
+          "against their normal equations); the default start is read from ev_program_start."),
     technique="Coq proof over Q of a translated+extracted model, differential correspondence within rounding tolerance, "
               "direct property oracles on the implementation (constructed optima, exact rational decision)",
     design="DESIGN.md section 2, C04")
@@ -69,7 +97,14 @@ ITER_CHUNKS = {"quick": (1, 250), "thorough": (8, 1000)}   # ITER stage: (chunks
 ITER_COUNTERS = ("solves", "events", "systems_solved", "systems_inaccurate_singular_block", "systems_regular", "full_passes_compared",
                  "exact_stage_counts", "bit_exact_mirrors", "status_decisions", "ambiguous", "skipped", "starts_rejected", "underflow_events",
                  "boundary_events", "over_budget_events", "propfails", "strict_feasibility_at_rounding", "stage2_exhausted_reverted",
-                 "stage2_exhausted_stale", "starts", "finals")
+                 "stage2_exhausted_stale", "starts", "finals", "lu_ok_checked", "lu_ok_violations", "converged_after_lu_ok_violation",
+                 "converged_finals_checked")
+REST_CHUNKS = {"quick": (1, 1200), "thorough": (10, 4000)}   # REST stage: (chunks, generator draws per chunk)
+REST_COUNTERS = ("eq_states", "eq_status_decisions", "eq_ambiguous", "eq_nonfinite", "eq_converged", "msf_calls", "msf_found", "msf_trials",
+                 "msf_systems_solved", "msf_systems_singular", "msf_ambiguous", "msf_bit_exact_results", "msf_rounding_level", "rest_propfails",
+                 "default_starts", "started", "started_from_zero", "rejected_without_iteration", "start_ambiguous", "strictly_feasible_known",
+                 "strictly_feasible_known_msf_nothing", "strictly_feasible_known_rejected", "feasible_known", "feasible_known_rejected")
+KF_SCALE = "equality-tolerance-vs-row-scale"
 KF_STALE = "objective-stale-trial-point"
 KF_HUGE = "feasibility-at-rounding-level"
 
@@ -451,6 +486,23 @@ def _replay(path):
         if bad:
             print("VIOLATION property=C04 replay=%s" % path)
         return 1 if bad else 0
+    if d.get("rest") and drv:
+        rc, out = vlib.sh("%s restreplay %s" % (exe, shlex.quote(d["rest"])), timeout=600)
+        lines = [l for l in out.split("\n") if l]
+        bad = [l for l in lines if l.startswith("FAIL ")]
+        rc2, mout = vlib.sh([drv], input="\n".join(l for l in lines if l.startswith(("CONST ", "SOLVE ", "REDUCE ", "MSF ", "MSTART "))) + "\n", timeout=600)
+        bad += [l for l in mout.split("\n") if l.startswith(("MISMATCH", "PROPFAIL"))]
+        for l in lines:
+            if l.startswith("SOLVE ") and " kind=eq-" in l:
+                dd = parse_solve(l)
+                if len(dd["c"]) <= 4:
+                    verdict, failure = exact_oracle(dd)
+                    if failure:
+                        bad.append("EXACT %s id=%s %s" % (failure, dd["id"], dd["text"]))
+        print("\n".join(l[:1500] for l in bad[:10]) or "replay: no failure")
+        if bad:
+            print("VIOLATION property=C04 replay=%s" % path)
+        return 1 if bad else 0
     text = d.get("program")
     if text:
         bad = _run_text(exe, drv, text)
@@ -761,6 +813,129 @@ def run(tier, replay=None):
         pl["broken_obligation"] = None if cres["ok"] else cres.get("broken")
         r.violation("corr-%s" % what, pl, no_input=not (impl_fail or exact_fail or prop or rprop or iprop))
 
+    # ---- REST stage: solve_without_inequality, make_strictly_feasible / make_x0 / the default start (C04_Rest_Defs) -----------
+    rest_counts = collections.Counter()
+    rest_status = collections.Counter()
+    rest_kinds = collections.Counter()
+    rest_exact = collections.Counter()
+    rest_worst = 0.0
+    rest_bad, rest_fail, rest_exact_fail = [], [], []
+    rest_text = {}
+    rest_samples = []
+    rest_eval = 0
+    rchunks, rcases = REST_CHUNKS.get(tier, REST_CHUNKS["quick"])
+    rcmd_of = lambda ch: "VERIF_SEED=%d %s rest %s %d %d" % (r.seed, exe, tier, rcases, ch)
+    rexact_budget = 400 if tier == "quick" else 4000
+    for ch in range(rchunks if drv else 0):
+        rc, out = vlib.sh([exe, "rest", tier, str(rcases), str(ch)], timeout=3000, env={"VERIF_SEED": str(r.seed)})
+        lines = [l for l in out.split("\n") if l]
+        del out
+        if rc != 0 or not any(l.startswith("DONE ") for l in lines):
+            r.violation("rest-crash", {"kind": "implementation-crash / exception in the harness (REST stage)", "exit": rc,
+                                       "last_operations": [l[:1500] for l in lines if l.startswith(("SOLVE ", "MSF "))][-3:],
+                                       "tail": "\n".join(lines[-6:])[-1500:], "replay_cmd": rcmd_of(ch)}, fingerprint="crash")
+        for l in lines:
+            if l.startswith("FAIL "):
+                rest_fail.append((ch, l))
+            elif l.startswith("CAND "):
+                cands.append((ch, l))
+            elif l.startswith("SOLVE "):
+                rest_eval += 1
+                st = l.split(" = ", 1)[1].split(" ", 1)[0]
+                kind = l.split(" ", 3)[2].split("=", 1)[1].split("+")[0]
+                rest_status["%s/status=%s" % (kind, st)] += 1
+                rest_kinds[kind] += 1
+                rest_text[(ch, l.split(" ", 2)[1])] = l.split(" = ")[0]
+                if st == "1":
+                    distinct.add(hash(l.split(" | ", 1)[1].split(" = ")[0]))
+                if " kind=eq-" in l and rexact_budget > 0:
+                    d = parse_solve(l)
+                    if len(d["c"]) <= 4:
+                        rexact_budget -= 1
+                        verdict, failure = exact_oracle(d)
+                        rest_exact["%s/status=%d" % (verdict, d["status"])] += 1
+                        if failure:
+                            rest_exact_fail.append((ch, failure, d))
+            elif l.startswith("RPROG "):
+                rest_eval += 1
+                rest_text[(ch, l.split(" ", 2)[1])] = l.split(" :: ", 1)[1]
+        rc2, mout = vlib.sh([drv], input="\n".join(l for l in lines if l.startswith(("CONST ", "SOLVE ", "REDUCE ", "MSF ", "MSTART "))) + "\n", timeout=3000)
+        got = False
+        for l in mout.split("\n"):
+            if l.startswith(("MISMATCH", "PROPFAIL")):
+                rest_bad.append((ch, l))
+            elif l.startswith("GENBAD"):
+                genbad.append((ch, l))
+            elif l.startswith("REST-DONE"):
+                got = True
+                dd = _kv(l)
+                for k in REST_COUNTERS:
+                    rest_counts[k] += int(dd.get(k, 0))
+                rest_worst = max(rest_worst, float(dd.get("eq_worst_residual_over_threshold", 0)))
+            elif l.startswith("MODEL-DONE"):
+                dd = _kv(l)
+                checked += int(dd.get("checked", 0))
+                for k in ("compared", "kkt_verified") + REDUCE_COUNTERS:
+                    drv_counts[k] += int(dd.get(k, 0))
+        if rc2 != 0 or not got:
+            r.violation("rest-driver", {"kind": "model driver failed (REST stage)", "out": mout[-2000:], "replay_cmd": rcmd_of(ch) + " | " + drv},
+                        no_input=True)
+        if not rest_samples:
+            rest_samples = [l[:500] for l in lines if l.startswith("MSF ")][:1] + [l[:300] for l in lines if l.startswith("MSTART ")][:1]
+        del lines
+
+    def rest_payload(ch, l):
+        m = re.search(r"id=(\d+)", l)
+        out = {"detail": l[:1500]}
+        text = rest_text.get((ch, m.group(1))) if m else None
+        if text:
+            out.update({"program": text, "rest": text, "replay_cmd": "%s restreplay %s | %s" % (exe, shlex.quote(text), drv)})
+        else:
+            out["replay_cmd"] = rcmd_of(ch) + " | " + str(drv)
+        return out
+    seenf = set()
+    for ch, l in rest_fail:
+        clause = l.split()[1]
+        if clause in seenf or len(seenf) >= 3:
+            continue
+        seenf.add(clause)
+        pl = rest_payload(ch, l)
+        pl.update({"kind": "direct property check failed on the implementation (REST stage: program without inequalities / default start)",
+                   "clause": clause, "case": l[:3000]})
+        r.violation("rest-impl-%s" % clause, pl)
+    for i, (ch, failure, d) in enumerate(rest_exact_fail[:3]):
+        r.violation("rest-exact-%d" % i, {"kind": "equality-only program decided exactly: " + failure, "program": d["text"], "rest": d["text"],
+                                          "returned": {"status": d["status"], "x": d["x"], "fx": d["fx"], "v": d["v"]},
+                                          "replay_cmd": "%s restreplay %s" % (exe, shlex.quote(d["text"]))})
+    rprop2 = [(ch, l) for ch, l in rest_bad if l.startswith("PROPFAIL")]
+    rcorr2 = [(ch, l) for ch, l in rest_bad if l.startswith("MISMATCH")]
+    seenp = set()
+    for ch, l in rprop2:
+        what = l.split()[1]
+        if what in seenp or len(seenp) >= 4:
+            continue
+        seenp.add(what)
+        pl = rest_payload(ch, l)
+        pl["kind"] = ("a proved property of solve_without_inequality / make_strictly_feasible / the default start fails on the implementation's own "
+                      "numbers (independent exact code in the driver): " + what)
+        r.violation(what, pl)
+    seenm = set()
+    for ch, l in rcorr2:
+        what = re.sub(r"\[\d+\]", "", l.split()[1])
+        if what in seenm or len(seenm) >= 4:
+            continue
+        seenm.add(what)
+        pl = rest_payload(ch, l)
+        pl["kind"] = "model/implementation disagreement (solve_without_inequality / make_strictly_feasible / make_x0)"
+        pl["meaning"] = {"eq-status": "the status of solve_without_inequality is not what the proved model (C04_Rest_Defs.eq_solve: translated status "
+                                      "expression on `valid` and Eigen's isApprox of the KKT system [[Q, A'],[A, 0]] (x, v) = (-c, b)) gives on the returned (x, v)",
+                         "msf-result": "make_strictly_feasible does not return what the model's trial loop returns on the candidates recomputed with the "
+                                       "same Eigen calls (least-squares points for the distances 1, 1/0.3, 0.3, ...)",
+                         "make-x0": "the starting point handed to solve_with_inequality (ev_program_start) is not make_x0 of the model: the returned "
+                                    "candidate, or the zero vector when make_strictly_feasible returns nothing"}.get(what, "see detail")
+        pl["broken_obligation"] = None if cres["ok"] else cres.get("broken")
+        r.violation("corr-%s" % what, pl, no_input=not (impl_fail or exact_fail or prop or rprop or iprop or rest_fail or rest_exact_fail or rprop2))
+
     for ch, l in genbad[:1]:
         r.violation("generator", {"kind": "generator defect: constructed optimum is not an exact KKT point (defect of the check)",
                                   "detail": l, "case": byid.get((ch, re.search(r"id=(\S+)", l).group(1)), "")[:4000]}, no_input=True)
@@ -769,6 +944,9 @@ def run(tier, replay=None):
     for fp, kind in ((KF_STALE, "the reported objective (and eta/residuals) are those of the last trial point of a failed stage-2 line "
                                 "search while m_x is the previous iterate; visible against the property's relative tolerance only when "
                                 "every term of the objective vanishes at the optimum"),
+                     (KF_SCALE, "equality-only program (solve_without_inequality): `converged` with an equality violated beyond 1e-6 (1 + |b|_inf) because "
+                                "the rows are normalised by |A|_F >> 1 + |b|_inf and the KKT system is accepted on a relative residual (isApprox); the "
+                                "deviation is below 2^-44 of dA (1 + |x|_1 + |v|_1), i.e. what a double-precision solve of the normalised system leaves"),
                      (KF_HUGE, "`converged` is reported at a point of astronomically large norm (degenerate program whose optimal "
                                "face is unbounded): the residual tests pass in double arithmetic, the true constraint deviation exceeds "
                                "the property's absolute tolerance but is below 2^-44 of the row's own terms")):
@@ -798,6 +976,10 @@ def run(tier, replay=None):
                          "the reduced system of the SOLVE lines is still the library's own output (compared with the model on the REDUCE "
                          "lines of the same programs: every program with a restated/contradicting equality row and 1 in 8 of the others)",
                          "norm divisors computed by the harness with the same Eigen calls, checked against exact squares (1e-12)",
+                         "REST stage: 7 kernels + 6 text pins (solve_without_inequality status, Eigen's isApprox read from /usr/include/eigen3/Eigen/src/Core/Fuzzy.h, "
+                         "make_strictly_feasible acceptance test and loop, make_x0, the dispatch of solve()); the harness' reconstruction of the program as solved "
+                         "for the equality-only path (library reduce + same norms; no hook there) and its mirror of the trial loop of make_strictly_feasible "
+                         "(same Eigen calls; answers validated against the normal equations, distances bit-exact)",
                          "ocaml/c04_driver.ml, harness/c04_program.cpp, exact rational oracle in tools/checks/c04.py (python fractions)"])
     cov = r.coverage
     cov["evaluations"] = evaluations
@@ -825,8 +1007,23 @@ def run(tier, replay=None):
     cov["iteration_ambiguous_decisions"] = dict(iter_amb)
     cov["iteration_worst_system_residual_singular_block"] = iter_worst
     cov["iteration_samples"] = iter_samples
-    cov["mismatches"] = len(corr) + len(icorr)
-    cov["impl_direct_failures"] = len(impl_fail) + len(exact_fail) + len(prop) + len(rprop) + len(iprop)
+    cov["rest_model"] = dict(rest_counts)
+    cov["rest_status_by_kind"] = dict(rest_status)
+    cov["rest_exact_decisions"] = dict(rest_exact)
+    cov["rest_worst_accepted_kkt_residual_over_isapprox_threshold"] = rest_worst
+    sk, sr = rest_counts.get("strictly_feasible_known", 0), rest_counts.get("strictly_feasible_known_rejected", 0)
+    cov["default_start_strictly_feasible_programs_reported_unfeasible_without_iteration"] = {
+        "programs_with_a_known_strictly_feasible_point": sk, "make_strictly_feasible_found_nothing": rest_counts.get("strictly_feasible_known_msf_nothing", 0),
+        "reported_unfeasible_before_the_first_iteration": sr, "fraction": (float(sr) / sk) if sk else None}
+    cov["rest_samples"] = rest_samples
+    cov["ldlt_lu_ok"] = {"passes_checked": iter_counts.get("lu_ok_checked", 0), "passes_violating_lu_ok": iter_counts.get("lu_ok_violations", 0),
+                         "solves_converged_after_a_violating_pass": iter_counts.get("converged_after_lu_ok_violation", 0),
+                         "converged_final_states_feasibility_checked": iter_counts.get("converged_finals_checked", 0)}
+    evaluations += rest_eval
+    cov["evaluations"] = evaluations
+    cov["distinct_nontrivial"] = len(distinct)
+    cov["mismatches"] = len(corr) + len(icorr) + len(rcorr2)
+    cov["impl_direct_failures"] = len(impl_fail) + len(exact_fail) + len(prop) + len(rprop) + len(iprop) + len(rest_fail) + len(rest_exact_fail) + len(rprop2)
     cov["defect_candidates"] = candidates
     cov["samples"] = samples
     cov["unproved_clauses_searched"] = [
@@ -846,7 +1043,14 @@ def run(tier, replay=None):
         "`converged` is never reported for an unbounded program (model theorem covers infeasibility only): constructed rays + exact decision",
         "reported objective agrees with the objective at x within 1e-6 of its terms (stale trial-point objective: see defect_candidates)",
         "lower side of |f(x)-f*| with the *returned* multipliers in the bound (theorem C04_gap_lower uses the multipliers of the optimum)",
-        "solve_without_inequality (no inequality rows): status taken from an LDLT residual test that is not modelled"]
+        "solve_without_inequality: that the LDLT answer solves the KKT system (when it does, x is a global minimiser: C04_eq_kkt_sufficient) is "
+        "searched through the optimality-gap oracle on KKT-constructed programs and the exact decision of programs with n <= 4; floating-point "
+        "evaluation of lmat*lsol and of isApprox (decision re-taken exactly, ambiguous within 4 rounding units + 1e-6 of the threshold)",
+        "make_strictly_feasible: that Eigen's LDLT of G'G solves the normal equations (checked per trial, required when G'G is regular); "
+        "floating-point evaluation of the acceptance test max(Gx-h) < 0 (exact sign unless within 2^-44 of the row's terms: ambiguous); "
+        "the distances ym *= 0.3, yM /= 0.3 in doubles (bit-exact mirror)",
+        "that the LDLT answer of a Newton pass satisfies lu_ok (7-11 % of the passes do not; the safety theorems do not need it, the "
+        "contraction theorems do: C04_ldlt_contraction_without_lu_ok_refuted)"]
     cov["excluded_inputs"] = ["states returned with status unfeasible/unbounded: objective/residual fields are not compared "
                               "(they may belong to the last trial point; counted as stale_states), the decision is still re-taken"]
     r.assumptions = ["the returned multipliers u are non-negative (now a theorem of the step-length model over Q for s0 < 1, C04_step_keeps_positive; "
